@@ -53,3 +53,55 @@ package remote
 //@   assert-call (*x509.CertPool).AddCert #0 : $s == opts.Roots && $cert.IsCA && tlsaMatch(rec, $cert) && isTA(rec)
 //@   assert-call (*x509.CertPool).AddCert #1 : $s == opts.Intermediates && !root
 //@   assert-call (*x509.Certificate).Verify : $c == leafOf(connState) && $opts.DNSName == connState.ServerName && $opts.Roots != nil && $opts.Intermediates != nil && $opts.Roots != $opts.Intermediates
+
+// ---- C09: per-recipient results of the remote target ----
+//@ import smtpconn "github.com/foxcpp/maddy/internal/smtpconn"
+// Shape of a delivery: every connection of the transaction is a live object with its smtpconn.C.
+//@ pure func rdOK(rd *remoteDelivery) bool = rd != nil && rd.msgMeta != nil && rd.connections != nil && (forall d string :: has(rd.connections, d) ==> rd.connections[d] != nil && rd.connections[d].C != nil)
+// connectionForDomain: the connection used for a recipient domain in this transaction (opened, or taken from the
+// pool, with MAIL already sent). Trusted here (frame and shape only); its security obligations belong to C05.
+//@ func (*remoteDelivery).connectionForDomain
+//@   prop C09
+//@   trusted
+//@   requires rdOK(rd)
+//@   modifies *
+//@   ensures rdOK(rd)
+//@   ensures rd.recipients == old(rd.recipients) && rd.msgMeta == old(rd.msgMeta) && rd.msgMeta.Quarantine == old(rd.msgMeta.Quarantine)
+//@   ensures result1 == nil ==> result0 != nil && result0.C != nil && result0.C.cl != nil && has(rd.connections, domain) && rd.connections[domain] == result0
+//@ func moduleError
+//@   prop C09 C05
+//@   ensures result != nil
+// AddRcpt: a recipient is recorded for the transaction exactly when the server of its domain accepted it, under
+// the address given, and RCPT is sent on the connection of that domain with that address; a quarantined message
+// gets no recipient accepted.
+//@ func (*remoteDelivery).AddRcpt
+//@   prop C09
+//@   modifies *
+//@   requires rdOK(rd)
+//@   ensures rdOK(rd)
+//@   assert-call (*remoteDelivery).connectionForDomain : splitOK(to) && $domain == splitDom(to) && !rd.msgMeta.Quarantine
+//@   assert-call (*smtpconn.C).Rcpt : $to == to && has(rd.connections, splitDom(to)) && $c == rd.connections[splitDom(to)].C
+//@   ensures result == nil ==> len(rd.recipients) == old(len(rd.recipients)) + 1 && rd.recipients[len(rd.recipients)-1] == to
+//@   ensures result == nil ==> (forall k int :: 0 <= k && k < old(len(rd.recipients)) ==> rd.recipients[k] == old(rd.recipients)[k])
+//@   ensures result == nil ==> !old(rd.msgMeta.Quarantine)
+//@   ensures result != nil ==> rd.recipients == old(rd.recipients)
+// One goroutine per connection of the transaction: whatever happens (the body cannot be opened, DATA fails or
+// succeeds) exactly one status is reported for every recipient recorded on that connection, under the recorded address.
+//@ import gosmtp "github.com/emersion/go-smtp"
+//@ func (*remoteDelivery).BodyNonAtomic$1
+//@   prop C09
+//@   modifies gStCnt, mxConn.errored, mxConn.lastUseAt, *conn.C.cl, gosmtp.SMTPError.Code, gosmtp.SMTPError.EnhancedCode, sync.WaitGroup.sema, sync.WaitGroup.state
+//@   requires conn != nil && conn.C != nil && b != nil && c != nil && !rd.msgMeta.Quarantine
+//@   ensures forall r string :: gStCnt[r] == old(gStCnt)[r] + occ(old(conn.C.rcpts), len(old(conn.C.rcpts)), r)
+//@   loop 0 invariant forall r string :: gStCnt[r] == old(gStCnt)[r] + occ(old(conn.C.rcpts), rangeindex + 1, r)
+//@   loop 1 invariant forall r string :: gStCnt[r] == old(gStCnt)[r] + occ(old(conn.C.rcpts), rangeindex + 1, r)
+// BodyNonAtomic: a quarantined message is never transmitted: every recorded recipient gets exactly one (failure)
+// status and no connection is used; otherwise one reporting goroutine is started per connection of the transaction.
+//@ func (*remoteDelivery).BodyNonAtomic
+//@   prop C09
+//@   modifies *
+//@   requires rdOK(rd) && c != nil && b != nil
+//@   ensures old(rd.msgMeta.Quarantine) ==> (forall r string :: gStCnt[r] == old(gStCnt)[r] + occ(old(rd.recipients), len(old(rd.recipients)), r))
+//@   loop 0 invariant forall r string :: gStCnt[r] == old(gStCnt)[r] + occ(old(rd.recipients), rangeindex + 1, r)
+//@   loop 0 invariant rd.msgMeta.Quarantine
+//@   loop 1 invariant rdOK(rd) && !rd.msgMeta.Quarantine
